@@ -270,6 +270,9 @@ class Header:
         elif self.kind == "vor":
             self.cap, self.n = parse_opt_int(w[2]), int(w[3])
             self.points = [parse_tuple(t[2:]) for t in w[4:] if t.startswith("p:")]
+            # optional `s:k`: the centroids are the integer points divided by k (connections are scale-invariant,
+            # the code's fixed-size Bowyer-Watson frame is not)
+            self.scale = next((int(t[2:]) for t in w[4:] if t.startswith("s:")), 1)
             self.tris = [parse_tuple(t[2:]) for t in w[4:] if t.startswith("t:")]
         else:
             raise ValueError(w)
@@ -306,7 +309,7 @@ class Impl:
                 self.space = ds.Network(G, capacity=h.cap, random=self.rng)
             else:
                 cap = h.cap
-                self.space = ds.VoronoiGrid([list(p) for p in h.points], capacity=cap, random=self.rng,
+                self.space = ds.VoronoiGrid([[x / h.scale for x in p] for p in h.points], capacity=cap, random=self.rng,
                                             capacity_function=lambda area: cap)
         except ValueError:
             self.space = None
@@ -556,12 +559,14 @@ def general_position(points, extra=()):
     return True
 
 
-def voronoi_ok(points):
-    """general position, and the code's finite 9999-frame does not change the triangulation"""
-    if not general_position(points, FRAME):
+def voronoi_ok(points, scale=1):
+    """general position, and the code's finite 9999-frame does not change the triangulation
+    (`points` are integers in units of 1/scale, so the frame is scaled up instead)"""
+    frame = [(x * scale, y * scale) for x, y in FRAME]
+    if not general_position(points, frame):
         return None
     t = delaunay_exact(points)
-    if t != delaunay_exact(points, FRAME):
+    if t != delaunay_exact(points, frame):
         return None
     return t
 
@@ -600,18 +605,29 @@ FALLBACK_POINTS = [(0, 0), (7, 1), (3, 6), (-4, 5), (-2, -6)]
 
 
 def gen_vor_header(R, max_points=7, caps=(None, None, 1, 1, 2, 3), span=9):
+    scale = 1
     for _ in range(50):
         n = R.randint(3, max_points)
-        pts = [(R.randint(-span, span), R.randint(-span, span)) for _ in range(n)]
-        tris = voronoi_ok(pts)
+        if R.random() < 0.3:
+            # thin triangles with large circumcircles (still far inside the code's 9999 frame): a centroid a hair
+            # inside a long hull edge.  Coordinates in units of 1/1024 (exact in binary64).
+            scale = 1024
+            pts = [(R.randint(-span, span) * scale, R.randint(-span, span) * scale) for _ in range(n - 1)]
+            (ax, ay), (bx, by) = R.sample(pts, 2) if len(set(pts)) > 1 else ((0, 0), (scale, 0))
+            t = R.choice([1, 1, 2, 3]) / 4
+            pts.append((int(ax + (bx - ax) * t) + R.choice([-3, -1, 1, 2, 5]), int(ay + (by - ay) * t) + R.choice([-2, 1, 3, -5])))
+        else:
+            scale = 1
+            pts = [(R.randint(-span, span), R.randint(-span, span)) for _ in range(n)]
+        tris = voronoi_ok(pts, scale)
         if tris is not None:
             break
     else:
-        pts = FALLBACK_POINTS
+        pts, scale = FALLBACK_POINTS, 1
         tris = voronoi_ok(pts)
     cap = R.choice(caps)
     return (f"scenario vor {'-' if cap is None else cap} {len(pts)} " + " ".join(f"p:{x},{y}" for x, y in pts) + " "
-            + " ".join(f"t:{a},{b},{c}" for a, b, c in tris))
+            + " ".join(f"t:{a},{b},{c}" for a, b, c in tris) + (f" s:{scale}" if scale != 1 else ""))
 
 
 def gen_header(R, **kw):
@@ -660,7 +676,8 @@ def gen_draws(R, impl, want_hit):
     if getattr(sp, "_try_random", False) and impl.h.kind == "grid":
         occupied = [i for i, c in enumerate(cells) if not c.is_empty]
         empty = [i for i, c in enumerate(cells) if c.is_empty]
-        draws = [R.choice(occupied) + n * R.randrange(3) for _ in range(R.randrange(0, 4))] if occupied else []
+        # occasionally a long run of misses: a bounded probing loop (any cut-off) must not hand out an occupied cell
+        draws = [R.choice(occupied) + n * R.randrange(3) for _ in range(R.choice([0, 1, 2, 3, 3, 5, 8, 13, 25, 40]))] if occupied else []
         if empty and want_hit:
             draws.append(R.choice(empty) + n * R.randrange(3))
         return draws
